@@ -85,9 +85,11 @@ var scriptsMore = map[string][]string{
 	"C14": {"upload-delete-close", "upload-delete-close", "fail-then-replace-alive"},
 	"C09": {"price-drop-all-extend", "price-drop-all-extend", "fail-then-replace-alive", "upload-delete-close"},
 	"C13": {"fail-then-replace-alive"},
+	"C24": {"free-out-of-order-replay"},
 }
 
-var scriptsC04 = []string{"third-party-extend", "owner-handover", "third-party-extend", "owner-handover", "killed-replace", "price-drop-extend", "kill-twice-close", "challenge-cycle"}
+var scriptsC04 = []string{"third-party-extend", "owner-handover", "third-party-extend", "owner-handover", "killed-replace", "price-drop-extend", "kill-twice-close", "challenge-cycle",
+	"free-out-of-order-replay", "free-out-of-order-replay", "free-out-of-order-replay"}
 
 func histKey(h Hist) string {
 	b, _ := json.Marshal(h.Ops)
@@ -184,7 +186,7 @@ func main() {
 			finish()
 			return
 		}
-		handle(rh, true, nil)
+		handle(rh, !rh.Ent, nil)
 		finish()
 		return
 	}
@@ -214,6 +216,9 @@ func main() {
 			if more := scriptsMore[prop]; len(more) > 0 && hr.Chance(1, 3) {
 				g.script = more[hr.Intn(len(more))]
 			}
+			if h.Ent {
+				g.script = "enterprise-close"
+			}
 		}
 		run := NewRun(h)
 		nops := hr.Range(5, o.N(40, 80))
@@ -222,7 +227,7 @@ func main() {
 			run.Step(op)
 			h.Ops = append(h.Ops, op)
 		}
-		handle(h, true, run)
+		handle(h, !h.Ent, run) // enterprise worlds are outside the model: oracle only
 	}
 	if os.Getenv("STORAGE_DEBUG") != "" {
 		for k, v := range rep.Histogram {
